@@ -40,6 +40,7 @@ import CelloProofs.Lemmas.IterMutDenote
 import CelloProofs.Lemmas.IterMem
 import CelloProofs.Lemmas.IterRange64
 import CelloProofs.Lemmas.IterZipNil
+import CelloProofs.Lemmas.IterSrc
 
 namespace Cello.Iter
 
@@ -878,5 +879,86 @@ example : (zipI [arrayI [1, 2, 3], arrayI ([] : List Nat)]).backward 10 = ([], .
 example : Expr.getPure (.slice (.array [1, 2, 3]) [some 1]) = true ∧ (arrayI [1, 2, 3]).inObject = false ∧
     (sliceI (arrayI [1, 2, 3]) 3 1 3 1).forwardWith (fun i => if i = 0 then some 0 else none) 10 = ([2, 3], .term) ∧
     (zipSameI (arrayI [1, 2, 3]) 2).forward 10 = ([[1, 1], [2, 2], [3, 3]], .term) := by decide
+
+/-! ## Extension round: the code INSIDE the proof — terms extracted from src/Iter.c and src/Table.c (CelloGen/Iter.lean, written by
+    translate/g_iter.py on every run; interpreted by Cello/IterSrc.lean with C's conversions) agree with the hand model, so every
+    theorem above is a theorem about the extracted code.  An edit of Slice_Arg, of a Filter_Iter_* function or of
+    Table_Iter_Last / Table_Iter_Prev arrives here as a different term and the theorem named after it stops checking. -/
+
+/-- **Slice_Arg as it is in src/Iter.c** (the three clamping statements run in source order; `n+a` is a `size_t` sum assigned back
+    to the `int64_t`, `a > (int64_t)n` a signed comparison) computes `sliceArg`, for every length below 2^63 and every `int64_t`
+    argument -/
+theorem C11_slice_arg_source (n : Nat) (a : Int) (hn : (n : Int) < 9223372036854775808)
+    (ha : -9223372036854775808 ≤ a ∧ a < 9223372036854775808) : sliceArgSrc n a = sliceArg n a :=
+  sliceArgSrc_eq n a hn ha
+
+/-- … hence what the users of `slice(…)` rely on holds of the extracted code: the result lies in `[0, n]`, an index in range is
+    kept, a negative one counts from the end, anything beyond is clamped -/
+theorem C11_slice_arg_source_clamps (n : Nat) (a : Int) (hn : (n : Int) < 9223372036854775808)
+    (ha : -9223372036854775808 ≤ a ∧ a < 9223372036854775808) :
+    0 ≤ sliceArgSrc n a ∧ sliceArgSrc n a ≤ n ∧
+    (0 ≤ a → a ≤ n → sliceArgSrc n a = a) ∧ (a < 0 → -(n : Int) ≤ a → sliceArgSrc n a = n + a) ∧
+    (a < -(n : Int) → sliceArgSrc n a = 0) ∧ (a > n → sliceArgSrc n a = n) := by
+  rw [sliceArgSrc_eq n a hn ha]; exact C11_sliceArg_clamps n a
+
+/-- **slice_stack through the extracted Slice_Arg** (`_` answers 0 / n / 1 per part, the step is not clamped) = `sliceStack`, the
+    function `denote` uses, for every argument list -/
+theorem C11_slice_stack_source (n : Nat) (hn : (n : Int) < 9223372036854775808) (args : List (Option Int))
+    (ha : ∀ x ∈ args, ∀ a, x = some a → -9223372036854775808 ≤ a ∧ a < 9223372036854775808) :
+    sliceStackSrc n args = sliceStack n args :=
+  sliceStackSrc_eq n hn args ha
+
+/-- with the unsigned comparison `a > n` of the old code (before a67379b) the same interpreter computes the OLD result: the
+    translator's reading of the cast matters -/
+example : ternRun 3 (-6) ⟨.a, .gt, .n, .nCast, .a⟩ = 3 ∧ ternRun 3 (-6) ⟨.a, .gt, .nCast, .nCast, .a⟩ = -6 ∧
+    sliceArgSrc 3 (-9) = 0 ∧ sliceArgSrc 3 (-2) = 1 ∧ sliceArgSrc 3 7 = 3 ∧ sliceArgSrc 3 2 = 2 ∧
+    sliceStackSrc 5 [some (-2), none, some (-1)] = some (3, 5, -1) := by decide
+
+/-- **the four Filter functions as they are in src/Iter.c** (Init: iter_init then skip with iter_next; Next: iter_next / iter_next;
+    Last: iter_last then skip with iter_prev; Prev: iter_prev / iter_prev; Terminal tested before the predicate is called) are
+    the Filter of the model -/
+theorem C11_filter_source {α : Type} (I : Iterable α) (p : α → Bool) (fuel : Nat) : filterSrcI I p fuel = filterI I p fuel :=
+  filterSrcI_eq I p fuel
+
+/-- … hence the Filter built from the extracted functions yields exactly the accepted elements, forwards and BACKWARDS -/
+theorem C11_filter_source_lawful {α : Type} (I : Iterable α) (p : α → Bool) (fuel : Nat) (l : List α) (hf : l.length < fuel) :
+    (LawfulAs I l → LawfulAs (filterSrcI I p fuel) (l.filter p)) ∧
+    (FwdAs I l → FwdAs (filterSrcI I p fuel) (l.filter p)) ∧ (BwdAs I l → BwdAs (filterSrcI I p fuel) (l.filter p)) := by
+  rw [filterSrcI_eq]
+  exact ⟨fun h => filter_lawfulAs I p fuel h hf, fun h => filter_fwdAs I p fuel h hf, fun h => filter_bwdAs I p fuel h hf⟩
+
+example : (filterSrcI (arrayI [1, 2, 3, 4, 5, 6]) (fun x => x % 2 = 0) 10).backward 10 = ([6, 4, 2], .term) ∧
+    (filterSrcI (arrayI [1, 2, 3, 4, 5, 6]) (fun x => x % 2 = 0) 10).forward 10 = ([2, 4, 6], .term) ∧
+    (filterSrcI (arrayI [1, 3]) (fun x => x % 2 = 0) 10).backward 10 = ([], .term) := by decide
+
+/-- **Table_Iter_Last as it is in src/Table.c** — `size_t i = nslots-1; while (true) { if (used i) return key i; if (i == 0) break; i--; }`
+    on a `size_t` that would wrap — returns what `scanDown` returns for EVERY slot array shorter than 2^64: it examines slot 0
+    and never reads outside the array -/
+theorem C11_table_last_source {α : Type} (slots : List (Option α)) (hl : (slots.length : Int) < 18446744073709551616) (s : Option Nat) :
+    (tableSrcI slots).last s = (tableI slots).last s :=
+  tableSrc_last_eq slots hl s
+
+/-- **Table_Iter_Prev as it is in src/Table.c** — step one slot down, `while (true) { if (curr < slot 0) return Terminal; if (used)
+    return curr; step down }` — from every cursor inside the array -/
+theorem C11_table_prev_source {α : Type} (slots : List (Option α)) (i : Nat) (hi : i < slots.length) :
+    (tableSrcI slots).prev (some i) = (tableI slots).prev (some i) :=
+  tableSrc_prev_eq slots i hi
+
+/-- **Table with the extracted Last / Prev is lawful**: foreach yields the used slots in order, the backward walk — through the
+    extracted loop programs — their reverse (down to and including slot 0), `len` their number; every pattern of holes -/
+theorem C11_table_source_lawful {α : Type} (slots : List (Option α)) (hl : (slots.length : Int) < 18446744073709551616) :
+    LawfulAs (tableSrcI slots) (occupied slots) ∧ (tableSrcI slots).len = some (occupied slots).length :=
+  ⟨tableSrc_lawfulAs slots hl, rfl⟩
+
+example : (tableSrcI [some 7, none, some 8, none]).backward 10 = ([8, 7], .term) ∧
+    (tableSrcI [some 7, none, none]).backward 10 = ([7], .term) ∧
+    (tableSrcI ([none, none] : List (Option Nat))).backward 10 = ([], .term) ∧
+    (tableSrcI ([] : List (Option Nat))).backward 10 = ([], .term) := by decide
+
+/-- the tidied loop `for (size_t i = nslots-1; i > 0; i--)` (seeded three times) read by the same translator and run by the same
+    interpreter loses the entry in slot 0: the agreement theorem is not true of every loop that "looks right" -/
+theorem C11_table_last_tidied_refuted :
+    runScan ([some 7, none] : List (Option Nat)) tableIterLastTidied 0 3 = (none, .term) ∧
+      ((tableI ([some 7, none] : List (Option Nat))).last none).2 = .item 7 := by decide
 
 end Cello.Iter
